@@ -302,10 +302,20 @@ func scenario(x *explore.X, everyOffset bool) {
 	case "mitm":
 		opts.MITM = true
 	}
-	opts.Tweak = func(cfg *forwarder.HTTPProxyConfig, _ *forwarder.HTTPTransportConfig) {
-		cfg.IdleTimeout = idleTO
-		cfg.ReadHeaderTimeout = headerTO
-		cfg.TLSServerConfig.HandshakeTimeout = tlsTO
+	// (round 9 rule) the limits reach the configuration as struct fields, or the way an operator's do: as command-line
+	// flags through the plumbing of package bind
+	if x.Choose("limits-given-as-command-line-flags", 2) == 1 {
+		opts.Flags = []string{"--idle-timeout", idleTO.String(), "--read-header-timeout", headerTO.String(), "--tls-handshake-timeout", tlsTO.String()}
+		if opts.ProxyProtocol {
+			opts.ProxyProtocol, opts.ProxyProtoTO = false, 0
+			opts.Flags = append(opts.Flags, "--proxy-protocol-listener", "--proxy-protocol-read-header-timeout", ppTO.String())
+		}
+	} else {
+		opts.Tweak = func(cfg *forwarder.HTTPProxyConfig, _ *forwarder.HTTPTransportConfig) {
+			cfg.IdleTimeout = idleTO
+			cfg.ReadHeaderTimeout = headerTO
+			cfg.TLSServerConfig.HandshakeTimeout = tlsTO
+		}
 	}
 	w, err := world.Start(opts)
 	if err != nil {
